@@ -230,3 +230,189 @@ def _sym_len(x):
     if isinstance(x, _Row):
         return x.width
     return len(x)
+
+
+# ------------------------------------------------------------------ C15 B3: random boards under PRNG / math contracts
+import math as _math
+import random as _random
+
+from symex.core import SymReal, to_real, Space
+
+LN = z3.Function("ln", z3.RealSort(), z3.RealSort())
+RND = z3.Function("rnd", z3.IntSort(), z3.IntSort(), z3.RealSort())      # rnd(seed, k) in (0,1)
+CHO = z3.Function("cho", z3.IntSort(), z3.IntSort(), z3.IntSort())
+RRG = z3.Function("rrg", z3.IntSort(), z3.IntSort(), z3.IntSort())
+
+
+class MathStub:
+    """math.log: strictly monotone uninterpreted function with ln 1 = 0 (instantiated on the arguments seen);
+    math.floor: an integer k with k <= x < k+1"""
+
+    def __init__(self, sp):
+        self.sp = sp
+        self.seen = []
+        self.nfloor = 0
+
+    def log(self, x):
+        if self.sp.mode == "native":
+            return _math.log(x)
+        sp = self.sp
+        t = z3.simplify(to_real(x))
+        sp.add(LN(z3.RealVal(1)) == 0)
+        for t0 in self.seen + [z3.RealVal(1)]:
+            sp.add(z3.Implies(t0 < t, LN(t0) < LN(t)), z3.Implies(t < t0, LN(t) < LN(t0)), z3.Implies(t == t0, LN(t) == LN(t0)))
+        self.seen.append(t)
+        return SymReal(LN(t))
+
+    def power_of_two(self, m):
+        """ln(2^-m) = -m ln 2, ln 2 > 0 (the one algebraic fact about log the reward formula relies on)"""
+        if self.sp.mode == "native":
+            return
+        x = core.rat(Fraction(1, 2 ** m))
+        self.sp.add(LN(x) == -m * LN(z3.RealVal(2)), LN(z3.RealVal(2)) > 0)
+        self.seen += [x, z3.RealVal(2)]
+
+    def floor(self, x):
+        if self.sp.mode == "native":
+            return _math.floor(x)
+        k = z3.Int("floor!%d" % self.nfloor)
+        self.nfloor += 1
+        self.sp.add(z3.ToReal(k) <= to_real(x), to_real(x) < z3.ToReal(k) + 1)
+        # same argument -> same value
+        return SymInt(k)
+
+
+from fractions import Fraction
+
+
+class RandomStub:
+    """the PRNG contract: seed(s) restarts a stream that is a function of (s, position); random() in (0,1);
+    choices(pop, w, k): k members of pop (weights positive); randrange(a,b) in [a,b)"""
+
+    def __init__(self, sp):
+        self.sp = sp
+        self.seedv = None
+        self.k = 0
+        self.draws = []
+        self.native = None
+
+    def seed(self, s):
+        self.k = 0
+        self.draws = []
+        if self.sp.mode == "native":
+            self.native = _random.Random(s)
+            self.seedv = s
+        else:
+            self.seedv = to_int(s)
+
+    def _next(self):
+        if self.seedv is None:
+            raise AssertionError("random source consulted before seeding")
+        k = self.k
+        self.k += 1
+        return z3.IntVal(k)
+
+    def random(self):
+        if self.sp.mode == "native":
+            if self.native is None:
+                raise AssertionError("random source consulted before seeding")
+            x = self.native.random()
+            self.draws.append(x)
+            return x
+        t = RND(self.seedv, self._next())
+        self.sp.add(t > 0, t < 1)
+        x = SymReal(t)
+        self.draws.append(x)
+        return x
+
+    def choices(self, pop, weights=None, k=1):
+        if weights is not None:
+            assert len(weights) == len(pop) and all(w > 0 for w in weights), "choices weights"
+        if self.sp.mode == "native":
+            if self.native is None:
+                raise AssertionError("random source consulted before seeding")
+            return self.native.choices(pop, weights, k=k)
+        out = []
+        for _ in range(int(k)):
+            c = CHO(self.seedv, self._next())
+            self.sp.add(c >= 0, c < len(pop))
+            out.append(pop[int(SymInt(c))])
+        return out
+
+    def randrange(self, a, b):
+        if self.sp.mode == "native":
+            if self.native is None:
+                raise AssertionError("random source consulted before seeding")
+            return self.native.randrange(a, b)
+        c = RRG(self.seedv, self._next())
+        self.sp.add(c >= to_int(a), c < to_int(b))
+        return SymInt(c)
+
+
+def _rnd_jobs(tier, seed):
+    jobs = []
+    shapes = [(1, 1), (1, 2), (2, 1)] if tier == "quick" else [(1, 1), (1, 2), (2, 1), (1, 3), (2, 2)]
+    for (L, W) in shapes:
+        for m in ([1, 2, 6] if tier == "quick" else [1, 2, 3, 4, 6, 8]):
+            for fd in (False, True):
+                if L * W > 2 and m > 2:
+                    continue
+                jobs.append(dict(L=L, W=W, m=m, fd=fd, _cost=(m + 1) ** (L * W), _timeout_s=1500))
+    return jobs
+
+
+@harness("gen.rnd_board", props=["C15"], jobs=_rnd_jobs, covers=["force_down", "plain"],
+         stubs=["random -> contract stub: stream = uninterpreted function of (seed, position), random() in (0,1), choices/randrange in range",
+                "math.log -> monotone uninterpreted function with ln 1 = 0 and ln 2^-(m+1) = -(m+1) ln 2; math.floor -> k <= x < k+1"],
+         bounds="boards up to 1x3 / 2x2 (quick 2 tiles), max_reward in {1,2,3,4,6,8} (quick {1,2,6}), ANY seed >= 0 and ANY loose-tile "
+                "probability in (0,1) (symbolic), both force-down settings",
+         assumes=["random.random() never returns exactly 0.0 (then the reward would be max_reward+1; probability 2^-53 per tile)",
+                  "uniformity of the PRNG (flag frequency = requested probability follows from flag <=> own uniform draw < p)"],
+         desc="real gen_rnd_board: requested dimensions; every reward an integer in 0..max_reward; every loose flag is 1 exactly when "
+              "its own draw is below the requested probability (distinct draws for distinct tiles); arrows from the allowed set with a "
+              "down-only tile in every row iff force-down; two calls with the same seed and parameters give identical boards")
+def gen_rnd_board(sp, L, W, m, fd):
+    gen = repo.load("roberta_generator", alias="roberta_generator_rnd")
+    rs, ms = RandomStub(sp), MathStub(sp)
+    gen.random, gen.math = rs, ms
+    seeds = [sp.int("seed", 0, None)]
+    p = sp.real("prob_loose", 0, 1, lo_open=True, hi_open=True)
+    if sp.mode == "native":
+        seeds += list(range(0, 40))       # the contract run cannot be replayed bit for bit: try the real PRNG on several seeds
+    for seed in seeds:
+        ms.power_of_two(m + 1)
+        moves, rewards, loose = gen.gen_rnd_board(seed, L, W, p, m, fd)
+        draws = list(rs.draws)
+        sp.cover("force_down" if fd else "plain")
+        for name, b in (("moves", moves), ("rewards", rewards), ("loose_tiles", loose)):
+            sp.prove(isinstance(b, list) and len(b) == L and all(isinstance(r, list) and len(r) == W for r in b),
+                     "%s is not a %dx%d board" % (name, L, W))
+        used = set()
+        for i in range(L):
+            for j in range(W):
+                r = rewards[i][j]
+                sp.prove(isinstance(r, int), "reward is not an integer")
+                sp.prove(b_and(r >= 0, r <= m), "reward outside 0..max_reward")
+                f = loose[i][j]
+                sp.prove(f in (0, 1) and isinstance(f, int), "loose flag %r" % (f,))
+                # its own uniform draw decides the flag
+                own = None
+                for k, d in enumerate(draws):
+                    if k in used:
+                        continue
+                    c = (d < p) if f == 1 else b_not(d < p)
+                    ok = c if isinstance(c, bool) else (sp.check(z3.Not(core.as_z3_bool(c))) == z3.unsat)
+                    if ok:
+                        own = k
+                        break
+                sp.prove(own is not None, "loose flag of tile (%d,%d) is not decided by a draw of its own against the requested probability" % (i, j))
+                used.add(own)
+                a = moves[i][j]
+                sp.prove(isinstance(a, int) and a in ((0, 1, 2, 3) if fd else (0, 1, 2)), "arrow %r not allowed" % (a,))
+            sp.prove((3 in moves[i]) == fd, "row %d %s a down-only tile (force-down %s)" % (i, "has" if 3 in moves[i] else "lacks", fd))
+        # reproducibility
+        moves2, rewards2, loose2 = gen.gen_rnd_board(seed, L, W, p, m, fd)
+        sp.prove(moves2 == moves and loose2 == loose, "same seed and parameters give a different board (arrows / loose tiles)")
+        for i in range(L):
+            for j in range(W):
+                sp.prove(rewards2[i][j] == rewards[i][j], "same seed and parameters give different rewards")
